@@ -55,9 +55,11 @@ IsEnd(p, flag)   == \/ p = "connect" /\ (flag \div 2) % 2 = 1
                     \/ p = "grpcweb" /\ flag >= 128
 
 (* What one complete frame means to the reader. *)
-\* The read limit is about messages: terminator frames (end-of-stream envelope, trailer frame) are not
-\* messages.  (The pinned tree applies the limit to every envelope: known finding C09/13, DESIGN 8.)
-Limited(s, f) == s.limit > 0 /\ ~Special(f.flag)
+\* The read limit applies to every envelope, terminator frames (end-of-stream envelope, trailer frame) included:
+\* they are peer-controlled data that the receiver has to buffer whole, so the property's buffering clause ("a peer
+\* cannot make the receiver buffer substantially more than N bytes") needs them limited.  (An earlier version of this
+\* module exempted them and reported the library's behaviour as a finding: a false alarm, DESIGN 9.)
+Limited(s, f) == s.limit > 0
 FrameClass(s, f) ==
   IF Limited(s, f) /\ f.len > s.limit THEN "limit"
   ELSE IF f.len = 0 /\ ~Special(f.flag) THEN "zero"
